@@ -1322,7 +1322,6 @@ def run_r2(chk, sides):
                 if a is not None:
                     preds[q] = a
         r.anchor("%s Register predicates" % side.lang, len(preds) >= 3)
-        nfun = 0
         nchecked = 0
 
         def visit(fn, e, scope):
@@ -1397,7 +1396,6 @@ def run_r2(chk, sides):
 
         for q in sorted(side.fns):
             fn = side.fns[q]
-            nfun += 1
             visit(fn, fn.body, {})
         r.floor("%s assert/encoding pairs" % side.lang, nchecked, 70)
 
@@ -1462,7 +1460,6 @@ def class_sites(side, fn, events):
             inner = class_sites(side, g, sym_events(g))
             if len(inner) == 1 and len(g.params) == len(ev.node[3]):
                 cn2, cf, args2, _ev2 = inner[0]
-                penv = {}
                 args = [_subst_params(a, ev.node[3]) for a in args2]
                 out.append((cn2, cf, args, ev))
     return out
@@ -1633,14 +1630,6 @@ def run_r3(chk, sides):
 
 
 # =============================================================================================== R4
-
-def _signed_width_of_class_param(infos, side, cn, pidx):
-    info = infos.get((side.lang, cn))
-    if info is None:
-        return None
-    pn = info.fn.params[pidx][0]
-    return info.atoms[pn].signed
-
 
 def trace_to_class(side, fn, pidx, depth=0):
     """which (class, parameter index) receives parameter #pidx of fn unchanged"""
